@@ -17,7 +17,7 @@ if not d.endswith("-a") and os.path.exists("/tmp/used_sites.json"):  # rounds b,
           "\n\nGo for the less central parts of what the property covers: secondary functions named in the anchors, in-place (`&mut self`) twins, by-reference operand forms and trait impls for `&T`, "
           "one particular vector size or kind (Vec8..Vec64, Extent, Rgb/Rgba, Uv/Uvw - enable cargo features as needed and say so), one matrix size or layout, conversions between types, "
           "clamped vs unclamped / precise vs fast variants, deprecated aliases, degenerate-input branches, behaviour that only differs after a *sequence* of calls.\n")
-        if d.endswith("-c") or d.endswith("-d"):
+        if d.endswith("-c") or d.endswith("-d") or d.endswith("-e"):
             extra+=("\nFor this round, make A and B come from two DIFFERENT categories of this list (say which): "
               "(1) a value-dependent shortcut - a fast path, early return, epsilon/threshold guard, clamp, saturating or sign-dependent branch that is right for ordinary values and wrong for some (zero, negative, tiny, huge, equal, NaN/inf where the statement covers them); "
               "(2) a numerically different but algebraically 'equivalent' rewrite that loses accuracy or overflows/underflows only for particular magnitudes or operand relations; "
@@ -30,6 +30,12 @@ if not d.endswith("-a") and os.path.exists("/tmp/used_sites.json"):  # rounds b,
               "(list the candidate functions first, cross off the ones above, then choose).  Favour slips that need a CONJUNCTION of two unusual conditions (a particular lane AND a particular sign; "
               "a degenerate operand AND the in-place form; one layout AND one argument order; a value next to a threshold AND a particular element type), and slips whose effect is SMALL "
               "(an off-by-one-ulp or off-by-one-unit result, a boundary treated as open instead of closed, a result that is right except exactly at a tie).\n")
+        if d.endswith("-e"):
+            extra+=("\nThis is the fifth round.  Everything above is taken, and single-site slips in the functions named by the anchors are largely exhausted.  Look instead at: "
+              "code OUTSIDE the anchored functions that they depend on (private helpers, trait impls in src/ops.rs or src/vec.rs that the anchored code calls, `From`/`Into` conversions used internally, "
+              "`Default`/`Zero`/`One` impls, macros' rarely-used arms); behaviour that depends on the HISTORY of a value (a second call, an in-place mutation followed by a read, a value that went through a conversion first); "
+              "and operands in an unusual RELATION to each other (aliasing `a op a`, an argument equal to a field of `self`, equal bounds, exactly opposite or exactly equal vectors, a scalar equal to zero or one or minus one). "
+              "Keep the effect as small and as local as you can while still being a clear violation of the statement.\n")
 p=[json.loads(l) for l in open('/verif/properties.jsonl') if json.loads(l)['id']==pid][0]
 open(d+'/out/BRIEF.md','w').write(f"""# Brief: seed two property-breaking changes into the `vek` crate
 
